@@ -253,6 +253,10 @@ func (s *otSpy) Send(wires []ot.Wire) error {
 	return s.OT.Send(wires)
 }
 
+// Verbose is set per run by the worlds: the verbose argument of StreamEvaluator and the Verbose
+// and Diagnostics parameters of the streaming compiler (reports, never results).
+var Verbose bool
+
 // Run executes one streaming session.
 func Run(t *rt.Tape, c *Case, otKind int, pipe simnet.PipeConfig, trace bool) *Out {
 	return RunAbort(t, c, otKind, pipe, trace, false)
@@ -290,6 +294,7 @@ func RunReuse(t *rt.Tape, c, par, pre *Case, dir int, cut uint64, failedCompileF
 	spy := &otSpy{OT: twopc.NewOT(otKind, simrand.Stream("G-ot"))}
 	otE := twopc.NewOT(otKind, simrand.Stream("E-ot"))
 	params := NewParams(simrand.Stream("G-garble"))
+	params.Verbose, params.Diagnostics = Verbose, Verbose
 	var ea2, eb2 *simnet.Endpoint
 	var spy2 *otSpy
 	var otE2 ot.OT
@@ -361,7 +366,7 @@ func RunReuse(t *rt.Tape, c, par, pre *Case, dir int, cut uint64, failedCompileF
 			})
 			rt.GoParty("E", "stream-evaluator-par", func() {
 				conn := p2p.NewConn(eb2)
-				n.EIO, n.EOut, n.EErr = circuit.StreamEvaluator(conn, otE2, par.In[1], nil, false)
+				n.EIO, n.EOut, n.EErr = circuit.StreamEvaluator(conn, otE2, par.In[1], nil, Verbose)
 				n.EDone = true
 				if n.EErr != nil {
 					eb2.Abort()
@@ -402,7 +407,7 @@ func RunReuse(t *rt.Tape, c, par, pre *Case, dir int, cut uint64, failedCompileF
 		rt.GoParty("E", "stream-evaluator", func() {
 			if pre != nil {
 				c0 := p2p.NewConn(ebP)
-				_, _, err := circuit.StreamEvaluator(c0, twopc.NewOT(otKind, simrand.Stream("E-ot-0")), pre.In[1], nil, false)
+				_, _, err := circuit.StreamEvaluator(c0, twopc.NewOT(otKind, simrand.Stream("E-ot-0")), pre.In[1], nil, Verbose)
 				if err == nil {
 					c0.Close()
 				} else {
@@ -411,7 +416,7 @@ func RunReuse(t *rt.Tape, c, par, pre *Case, dir int, cut uint64, failedCompileF
 				ebP.Abort()
 			}
 			conn := p2p.NewConn(eb)
-			o.EIO, o.EOut, o.EErr = circuit.StreamEvaluator(conn, otE, c.In[1], nil, false)
+			o.EIO, o.EOut, o.EErr = circuit.StreamEvaluator(conn, otE, c.In[1], nil, Verbose)
 			o.EDone = true
 			if o.EErr != nil {
 				eb.Abort()
@@ -475,6 +480,10 @@ func (w *c05) Run(t *rt.Tape, trace bool) *core.Result {
 		if d.Frag == simnet.FragOne {
 			d.Frag = simnet.FragField
 		}
+	}
+	Verbose = t.Choose(rt.SGen, 5) == 0
+	if Verbose {
+		res.Reach["option.verbose"]++
 	}
 	prog, probe := DrawProgram(t)
 	// One case in eight: the garbler's Compiler value first compiles a program that fails; half of
